@@ -1319,7 +1319,11 @@ impl<'a> CompilerState<'a> {
                             Rule::array_spec => {
                                 start = p.as_span().start();
                                 if let Some(px) = p.into_inner().next() {
-                                    size = Some(self.parse_calc(px.into_inner())? as usize);
+                                    let n = self.parse_calc(px.into_inner())?;
+                                    if n < 0 {
+                                        return Err(self.syntax_error("Negative array size", start));
+                                    }
+                                    size = Some(n as usize);
                                 }
                                 if var_type == VariableType::Char {
                                     var_type = VariableType::CharPtr;
@@ -1836,7 +1840,11 @@ impl<'a> CompilerState<'a> {
                                     Rule::array_spec => {
                                         start = p.as_span().start();
                                         if let Some(px) = p.into_inner().next() {
-                                            size = Some(self.parse_calc(px.into_inner())? as usize);
+                                            let n = self.parse_calc(px.into_inner())?;
+                                            if n < 0 {
+                                                return Err(self.syntax_error("Negative array size", start));
+                                            }
+                                            size = Some(n as usize);
                                         }
                                         if var_type == VariableType::Char {
                                             var_type = VariableType::CharPtr;
@@ -2151,7 +2159,11 @@ impl<'a> CompilerState<'a> {
                                 Rule::array_spec => {
                                     start = pair.as_span().start();
                                     if let Some(px) = pair.into_inner().next() {
-                                        size = Some(self.parse_calc(px.into_inner())? as usize);
+                                        let n = self.parse_calc(px.into_inner())?;
+                                        if n < 0 {
+                                            return Err(self.syntax_error("Negative array size", start));
+                                        }
+                                        size = Some(n as usize);
                                     }
                                     if var_type == VariableType::Char {
                                         var_type = VariableType::CharPtr;
